@@ -1592,8 +1592,14 @@ impl DnsOutPacket {
 
         // Write each label
         for (i, label) in labels.iter().enumerate() {
-            // Build the remaining name for compression (with dots as separators)
-            let remaining: String = labels[i..].join(".");
+            // Build the remaining name for compression (with dots as separators).
+            // Dots and backslashes inside a label are escaped, so that different label
+            // sequences (e.g. "a.b" as one label vs. two labels) never share a key.
+            let remaining: String = labels[i..]
+                .iter()
+                .map(|l| l.replace('\\', "\\\\").replace('.', "\\."))
+                .collect::<Vec<_>>()
+                .join(".");
 
             // Check if we can use compression for the remaining part
             const POINTER_MASK: u16 = 0xC000;
